@@ -180,9 +180,38 @@ pub fn run_merge(r: &mut Rng, n: usize, out: &mut Out) {
         let mut specs = Vec::new();
         let mut owners = Vec::new();
         let mut panicked = false;
+        let overlap = shared.is_some() && r.chance(1, 3);
         for _ in 0..k {
-            let apex = if r.chance(3, 4) { shared.clone() } else { None };
-            let gz = gen_zone(r, apex, 6);
+            let apex = if overlap || r.chance(3, 4) { shared.clone() } else { None };
+            let mut gz = gen_zone(r, apex, 6);
+            if overlap {
+                // RRsets of several records that overlap between the files, in varying order: the union
+                // must hold each record once wherever the common ones stand in either list
+                for (wild, label) in [(false, "dup"), (true, "wdup")] {
+                    let mut ls = vec![Label::try_from(label.as_bytes()).unwrap()];
+                    ls.extend(gz.zone.get_apex().labels.iter().cloned());
+                    let Some(owner) = DomainName::from_labels(ls) else { continue };
+                    let mut picks: Vec<u8> = vec![1, 2, 3, 4];
+                    for i in (1..picks.len()).rev() {
+                        picks.swap(i, r.below(i + 1));
+                    }
+                    picks.truncate(r.range(1, 3));
+                    for x in picks {
+                        let data = RecordTypeWithData::A { address: std::net::Ipv4Addr::new(10, 1, 1, x) };
+                        let rr = ResourceRecord { name: owner.clone(), rtype_with_data: data.clone(), rclass: RecordClass::IN, ttl: 300 };
+                        if wild {
+                            gz.zone.insert_wildcard(&owner, data, 300);
+                            gz.spec.push_str(&format!("!w:{}", c::rr(&rr)));
+                        } else {
+                            gz.zone.insert(&owner, data, 300);
+                            gz.spec.push_str(&format!("!i:{}", c::rr(&rr)));
+                        }
+                        if !gz.owners.contains(&owner) {
+                            gz.owners.push(owner.clone());
+                        }
+                    }
+                }
+            }
             specs.push(gz.spec.clone());
             owners.extend(gz.owners.iter().cloned());
             let z = gz.zone;
